@@ -1,6 +1,7 @@
 package main
 
 import (
+	"fmt"
 	"go/token"
 	"go/types"
 	"strings"
@@ -11,7 +12,7 @@ import (
 func init() {
 	register(&Prop{
 		ID:         "C10",
-		Decided:    "(1) the session key encoder is injective and NULL-distinct (keyenc); (2) end = last activity + timeout wherever lastActive is stored, a new session is [ts, ts+timeout), and the last activity of an open session only moves forward (an accepted out-of-order event does not rewind it, so last+timeout never falls behind the end); (3) a session is marked expired only under time >= its end, the late policy of Add discards only late rows, allowance entries expire only at end+AllowedLateness; (4) gap split: on the branch of Add where a session for the key already exists, the append to that session is unreachable when ts >= that session's end (otherwise the split depends on the expiry goroutine's schedule); (5) sessionMap/triggeredSessions/callback are accessed only under sw.mu; (6) a late row is appended only to a fired session of its own group, and the keys under which gap-closed and fired sessions are kept are numbered by a counter (unique per session). Also: every time.Now() in the window's Add (the processing-time stamp of the row) is executed with the window lock held exclusively, so no Trigger can deliver the stamped interval between the clock read and the placement (locks/clock-read-under-lock).",
+		Decided:    "(1) the session key encoder is injective and NULL-distinct (keyenc); (2) end = last activity + timeout wherever lastActive is stored, a new session is [ts, ts+timeout), and the last activity of an open session only moves forward (an accepted out-of-order event does not rewind it, so last+timeout never falls behind the end); (3) a session is marked expired only under time >= its end, the late policy of Add discards only late rows, allowance entries expire only at end+AllowedLateness; (4) gap split: on the branch of Add where a session for the key already exists, the append to that session is unreachable when ts >= that session's end (otherwise the split depends on the expiry goroutine's schedule); (5) sessionMap/triggeredSessions/callback are accessed only under sw.mu; (6) a late row is appended only to a fired session of its own group, and the keys under which gap-closed and fired sessions are kept are numbered by a counter (unique per session). Also: every time.Now() in the window's Add (the processing-time stamp of the row) is executed with the window lock held exclusively, so no Trigger can deliver the stamped interval between the clock read and the placement (locks/clock-read-under-lock). Also: in the methods of SessionWindow no Unlock of mu lies between a call that decides which sessions are expired and a later removal from sessionMap (locks/expiry-decision-atomic): a concurrent Add cannot swap the session under a key between the decision and the firing.",
 		NotDecided: "that each event is in exactly one reported session under all schedules; window_start as the earliest accepted timestamp under out-of-order input; aggregate values.",
 		Run:        runC10,
 	})
@@ -78,6 +79,7 @@ func runC10(a *A) {
 	a.Rule("flow/late-row-own-group", 2, func() { a.ruleLateRowOwnGroup() })
 	a.Rule("ordtab/gap-split", 1, func() { a.ruleGapSplit() })
 	a.Rule("locks/guarded-by", 5, func() { a.lockRules("window", "SessionWindow") })
+	a.Rule("locks/expiry-decision-atomic", 2, func() { a.ruleExpiryDecisionAtomic() })
 	a.Rule("locks/clock-read-under-lock", 1, func() { a.ruleClockReadUnderLock(a.Named("window", "SessionWindow")) })
 }
 
@@ -289,4 +291,129 @@ func backwardSlice(v ssa.Value, depth int) map[ssa.Value]bool {
 	}
 	walk(v, 0)
 	return out
+}
+
+// ruleExpiryDecisionAtomic: that a session has expired is decided by looking at it under the
+// window lock (watermark >= its end), and a concurrent Add may at any time replace the session stored
+// under a key by a fresh one. The decision and the removal of the session from sessionMap therefore
+// belong to one critical section: in the methods of SessionWindow no Unlock of mu lies between a call
+// that decides which sessions are expired (a function looping over sessionMap with a time comparison)
+// and a later removal from sessionMap. Otherwise the stale key fires the fresh session before the
+// watermark has reached its end, and the key's next row starts yet another session.
+func (a *A) ruleExpiryDecisionAtomic() int {
+	W := a.Named("window", "SessionWindow")
+	smap := a.FieldOf(W, "sessionMap")
+	isMethodOfW := func(fn *ssa.Function) bool {
+		root := fn
+		for root.Parent() != nil {
+			root = root.Parent()
+		}
+		r := root.Signature.Recv()
+		return r != nil && types.Identical(derefT(r.Type()), W)
+	}
+	decides := map[*ssa.Function]bool{}
+	removes := map[*ssa.Function]bool{}
+	var methods []*ssa.Function
+	for _, fn := range a.ModFuncs {
+		if fn.Blocks == nil || !isMethodOfW(fn) {
+			continue
+		}
+		methods = append(methods, fn)
+		for _, l := range mapRangeLoops(fn) {
+			if t := TermOf(l.X, nil); t.Kind != "field" || t.Field != smap {
+				continue
+			}
+			for b := range l.Blocks {
+				for _, in := range b.Instrs {
+					if c, ok := in.(*ssa.Call); ok {
+						switch timeMethod(&c.Call) {
+						case "Before", "After", "Equal", "Compare":
+							decides[fn] = true
+						}
+					}
+				}
+			}
+		}
+		allInstrs(fn, func(in ssa.Instruction) {
+			if c, ok := in.(*ssa.Call); ok {
+				if cc, ok := isBuiltinCall(c, "delete"); ok {
+					if t := TermOf(cc.Args[0], nil); t.Kind == "field" && t.Field == smap {
+						removes[fn] = true
+					}
+				}
+			}
+		})
+	}
+	// one level up: a method that calls a deciding / removing method
+	callsInto := func(in ssa.Instruction, set map[*ssa.Function]bool) bool {
+		if _, isGo := in.(*ssa.Go); isGo {
+			return false
+		}
+		callee := staticCallee(in)
+		return callee != nil && set[callee]
+	}
+	key := lockKey{ownerName(types.NewPointer(W)), "mu"}
+	isUnlock := func(in ssa.Instruction) bool {
+		cc := callCommon(in)
+		if cc == nil {
+			return false
+		}
+		if _, isDefer := in.(*ssa.Defer); isDefer {
+			return false
+		}
+		k, op, ok := lockOp(cc)
+		return ok && k == key && (op == "Unlock" || op == "RUnlock")
+	}
+	n := 0
+	for _, fn := range methods {
+		isDecision := func(in ssa.Instruction) bool { return callsInto(in, decides) }
+		isRemoval := func(in ssa.Instruction) bool {
+			if callsInto(in, removes) {
+				return true
+			}
+			if c, ok := in.(*ssa.Call); ok {
+				if cc, ok := isBuiltinCall(c, "delete"); ok {
+					if t := TermOf(cc.Args[0], nil); t.Kind == "field" && t.Field == smap {
+						return true
+					}
+				}
+			}
+			return false
+		}
+		var decisions []ssa.Instruction
+		allInstrs(fn, func(in ssa.Instruction) {
+			if isDecision(in) {
+				decisions = append(decisions, in)
+			}
+		})
+		for _, d := range decisions {
+			n++
+			var bad ssa.Instruction
+			// an unlock reachable after the decision, from which a removal is reachable
+			seenU := map[ssa.Instruction]bool{}
+			from := d
+			for {
+				u := reachableAfter(from, func(x ssa.Instruction) bool { return isUnlock(x) && !seenU[x] }, nil)
+				if u == nil {
+					break
+				}
+				seenU[u] = true
+				if r := reachableAfter(u, isRemoval, func(x ssa.Instruction) bool { return isDecision(x) }); r != nil {
+					bad = r
+					break
+				}
+			}
+			pos := d.Pos()
+			if bad != nil {
+				pos = bad.Pos()
+			}
+			a.Check(bad == nil, fmt.Sprintf("%s#expiry-decision-atomic", fname(fn)), pos,
+				"no Unlock of "+key.String()+" lies between the decision which sessions are expired and the removal of a session from sessionMap",
+				"sessions are removed from sessionMap at "+a.pos(pos)+" after the lock was released since the decision which of them are expired ("+a.pos(d.Pos())+"): an Add in between can park the expired session and store a fresh one under the same key, which is then fired before the watermark reaches its end")
+		}
+	}
+	if n == 0 {
+		a.anchorFail("no method of SessionWindow calls a function that decides session expiry")
+	}
+	return n
 }
